@@ -71,7 +71,7 @@ def get_facts(repo=REPO, verbose=True):
             # keep the cache small: drop fact files other than the 6 newest
             fs = sorted((f for f in os.listdir(CACHE) if f.startswith("facts-") and f.endswith(".json")),
                         key=lambda f: os.path.getmtime(os.path.join(CACHE, f)))
-            for f in fs[:-6]:
+            for f in fs[:-60]:
                 try:
                     os.remove(os.path.join(CACHE, f))
                 except OSError:
@@ -222,6 +222,44 @@ def thorough_extra(prop, repo, base_ctxs):
             shutil.rmtree(tmp, ignore_errors=True)
     out["seeded_mutants"] = results
     out["seeded_mutants_caught"] = sum(1 for r in results if r["status"] == "caught")
+    # (c) behaviour-preserving refactors (benign/*.diff: extract-helper, rename, if<->match, early return,
+    # introduce-local ...) that touch a file this property's rules looked at must NOT change the verdict
+    files = {str(o.get("where", "")).split(":")[0] for cx in base_ctxs for o in cx.obligations}
+    bres = []
+    for pf in sorted(glob.glob(os.path.join(VERIF, "benign", "*.diff"))):
+        touched = set()
+        with open(pf) as fh:
+            for line in fh:
+                if line.startswith("+++ b/"):
+                    touched.add(line[6:].strip())
+        if not (touched & files):
+            continue
+        tmp = tempfile.mkdtemp(prefix="skv-ben-")
+        try:
+            for name in ("src", "Cargo.toml", "Cargo.lock", "benches"):
+                sp = os.path.join(repo, name)
+                if os.path.isdir(sp):
+                    shutil.copytree(sp, os.path.join(tmp, name))
+                elif os.path.exists(sp):
+                    shutil.copy(sp, os.path.join(tmp, name))
+            r = subprocess.run(["patch", "-p1", "-s", "-f", "-i", pf], cwd=tmp, stdout=subprocess.PIPE, stderr=subprocess.STDOUT, text=True)
+            if r.returncode != 0:
+                bres.append({"refactor": os.path.basename(pf), "status": "patch does not apply to the current tree"})
+                continue
+            try:
+                mf, _ = get_facts(tmp, verbose=False)
+            except SystemExit as e:
+                bres.append({"refactor": os.path.basename(pf), "status": "extraction failed: %s" % e})
+                continue
+            _, mctx = run_property(prop, "quick", mf, {})
+            new = sorted({v.key for cx in mctx for v in cx.violations} - base_keys)
+            bres.append({"refactor": os.path.basename(pf), "status": "FALSE-ALARM" if new else "silent", "new_violations": new[:6]})
+            if new:
+                print("WARNING: behaviour-preserving refactor %s makes %s raise %s" % (os.path.basename(pf), prop, new[:3]))
+        finally:
+            shutil.rmtree(tmp, ignore_errors=True)
+    out["benign_refactors"] = bres
+    out["benign_refactors_silent"] = sum(1 for r in bres if r["status"] == "silent")
     return out
 
 
